@@ -161,6 +161,7 @@ theorem TInv_receiveCer (s : St) (cid : Nat) (m : AMsg) (info : MsgInfo) (h : TI
     | exact TInv_sendMessage _ _ _ _ (TInv_of_eq rfl rfl rfl rfl (he _))
     | exact TInv_sendMessage _ _ _ _ (TInv_flagReady _ _ (TInv_assignPeerConnection _ _ (TInv_of_eq rfl rfl rfl rfl (he _))))
     | split
+    | exact TInv_of_eq rfl rfl rfl rfl (he _)
     | dsimp only)
 
 theorem TInv_receiveCea (hk : Config.removeCleansTables = true) (s : St) (cid : Nat) (m : AMsg) (h : TInv s) :
